@@ -162,8 +162,12 @@ func RunDaemon() {
 		simhook.SignalChan(sig)
 
 		g.Add(func() error {
-			<-sig
-			ui.Info("Received SIGTERM signal, exiting...")
+			select {
+			case <-sig:
+				ui.Info("Received SIGTERM signal, exiting...")
+			case <-ctx.Done():
+				// another actor ended first and the group is shutting down
+			}
 			return nil
 		}, func(err error) {
 			// the channel stays registered with os/signal and must not be closed:
